@@ -75,7 +75,7 @@ def rule_gate(ctx, res):
         'timer cancel': ctx.calls_in(b, rx=r'timer::Timer::<T>::cancel$'),
         'map insert (tokens)': ctx.calls_in(b, rx=r'HashMap::<K, V, S, A>::insert$|HashMap::<K, V, S>::insert$'),
     }
-    floors = {'stream send': 1, 'candidate insertion': 2, 'new query round': 2, 'timer cancel': 1, 'map insert (tokens)': 1}
+    floors = {'stream send': 1, 'candidate insertion': 1, 'new query round': 1, 'timer cancel': 1, 'map insert (tokens)': 1}   # non-vacuity
     for what, sites in guarded.items():
         res.sites += len(sites)
         res.check(len(sites) >= floors[what], 'WHO', b.path, '%s: at least %d site(s) found' % (what, floors[what]), detail=str(len(sites)), key='floor:' + what)
@@ -252,6 +252,22 @@ def rule_announce(ctx, res, content=True):
         if names[-1] == 'into_iter':
             names = names[:-1]
         want_names = ['src', 'iter', 'filter', 'take']
+        if names == ['src', 'iter', 'filter_map', 'take'] and self_field(pl[0][1], 'all_sorted_nodes'):
+            # form B: `.filter_map(|(_, node, _)| announce_tokens.get(node).map(|token| (node, token))).take(N)`:
+            # the loop element is (node, that node's token)
+            okb, whyb = _announce_form_b(ctx, res, pl, dest, f.get('token'), nx)
+            take_n = pl[3][1]
+            if not (take_n[0] == 'int' and take_n[1] == 8 and take_n[2] == 'action::lookup::ANNOUNCE_PICK_NUM'):
+                okb, whyb = False, 'take() bound is not ANNOUNCE_PICK_NUM'
+            if content:
+                if not (self_field(f.get('id'), 'this_node_id') and self_field(f.get('info_hash'), 'target_id') and is_param(strip_transparent(f.get('port')), 'port')):
+                    okb, whyb = False, 'id / info_hash / port are not own id / searched hash / configured port'
+                if not is_generate(strip_transparent(m[2].get('transaction_id'))):
+                    okb, whyb = False, 'transaction id not from the search\'s generator'
+            if not okb:
+                ok = False
+                why = whyb
+            continue
         if names != want_names or not self_field(pl[0][1], 'all_sorted_nodes'):
             ok = False
             why = 'announce loop is not all_sorted_nodes.iter().filter(..).take(..): %s' % names
@@ -294,6 +310,66 @@ def rule_announce(ctx, res, content=True):
                 why = 'filter is not announce_tokens.contains_key(node)'
     res.check(ok, 'FLOW', b.path, 'each announce goes to a node of all_sorted_nodes.iter().filter(has token).take(ANNOUNCE_PICK_NUM) with that node\'s token, own id, searched hash, configured port',
               site=b.span, detail=why, key='announce-content')
+
+
+def _announce_form_b(ctx, res, pl, dest, tok, nx):
+    fcl = pl[2][1]
+    if not (isinstance(fcl, tuple) and fcl[0] == 'closure' and ctx.f.body(fcl[1]) is not None):
+        return False, 'filter_map argument is not a closure'
+    kb = ctx.f.body(fcl[1])
+    res.touch(kb)
+    ks = Sym(kb)
+    ks.run()
+    cps = ks.complete_paths()
+    if len(cps) != 1 or cps[0].conds:
+        return False, 'filter_map closure branches'
+    r = strip_transparent(cps[0].ret)
+    if not (r[0] == 'call' and r[1].split('::')[-1] == 'map' and len(r[2]) == 2):
+        return False, 'filter_map closure is not `tokens.get(node).map(..)`'
+    g = strip_transparent(r[2][0])
+    if not (g[0] == 'call' and g[1].split('::')[-1] == 'get'):
+        return False, 'filter_map closure is not `tokens.get(node).map(..)`'
+    recv, key = strip_transparent(g[2][0]), strip_transparent(g[2][1])
+    ch = field_chain(recv)
+    caps = [strip_transparent(c) for c in fcl[2]]
+    cap = caps[kb.upvars.index(ch[0])] if ch and ch[0] in kb.upvars and is_param(root_of(recv)) and root_of(recv)[1] == 1 else None
+    if cap is None or not self_field(cap, 'announce_tokens'):
+        return False, 'the map consulted is not announce_tokens'
+    if not (is_param(root_of(key)) and root_of(key)[1] == 2 and field_chain(key)[-1:] == ['1']):
+        return False, 'the key is not the node of the candidate entry'
+    k2 = r[2][1]
+    if not (isinstance(k2, tuple) and k2[0] == 'closure' and ctx.f.body(k2[1]) is not None):
+        return False, 'map argument is not a closure'
+    k2b = ctx.f.body(k2[1])
+    res.touch(k2b)
+    k2s = Sym(k2b)
+    k2s.run()
+    c2 = k2s.complete_paths()
+    if len(c2) != 1 or c2[0].conds:
+        return False, 'map closure branches'
+    r2 = c2[0].ret
+    if not (isinstance(r2, tuple) and r2[0] == 'agg' and r2[1] == 'tuple'):
+        return False, 'map closure does not build (node, token)'
+    e0, e1 = strip_transparent(r2[2].get('0')), strip_transparent(r2[2].get('1'))
+    # e1 is the closure argument (the token found), e0 a captured value: the very node that was looked up
+    if not (is_param(root_of(e1)) and root_of(e1)[1] == 2 and not field_chain(e1)):
+        return False, 'second component is not the token found'
+    ch0 = field_chain(e0)
+    caps2 = [strip_transparent(c) for c in k2[2]]
+    cap0 = caps2[k2b.upvars.index(ch0[0])] if ch0 and ch0[0] in k2b.upvars and is_param(root_of(e0)) and root_of(e0)[1] == 1 else None
+    if cap0 is None or not (is_param(root_of(cap0)) and root_of(cap0)[1] == 2 and field_chain(cap0)[-1:] == ['1']):
+        return False, 'first component is not the node that was looked up'
+    fc = field_chain(dest)
+    if fc[-2:] != ['0', 'addr']:
+        return False, 'destination is not the address of the loop node'
+    tk = strip_transparent(tok)
+    tnx = find_calls(tk, '::next')
+    core = tk
+    while isinstance(core, tuple) and core and core[0] == 'call' and core[1].split('::')[-1] in ('clone', 'to_vec', 'to_owned', 'as_ref', 'deref'):
+        core = strip_transparent(core[2][0])
+    if tnx != nx or field_chain(core)[-1:] != ['1']:
+        return False, 'token is not the token component of the loop element'
+    return True, ''
 
 
 def rule_finish_once(ctx, res):
@@ -362,7 +438,7 @@ def rule_sorted(ctx, res):
     """all_sorted_nodes is mutated only through insert_sorted_node, which inserts at the binary-search position of target ^ id"""
     sites = ctx.calls_to(INSERT_SORTED)
     res.sites += len(sites)
-    res.check(len(sites) >= 3, 'WHO', INSERT_SORTED, 'insert_sorted_node call sites (floor 3)', detail=str(len(sites)))
+    res.check(len(sites) >= 1, 'WHO', INSERT_SORTED, 'insert_sorted_node call sites (non-vacuity)', detail=str(len(sites)))
     # Vec methods applied to the field anywhere
     muts = []
     for body in ctx.f.body_list:
@@ -482,22 +558,80 @@ def rule_endgame_covers(ctx, res):
                 a = strip_transparent(e[2][0])
                 srcs.add(tuple(field_chain(a)))
     res.check(srcs == {('all_sorted_nodes',)}, 'FLOW', b.path, 'the end-game loop walks the whole candidate list (all_sorted_nodes.iter_mut())', detail=str(srcs))
-    # the filter keeps entries whose flag is false
-    fb = ctx.f.body(START_ENDGAME + '::{closure#0}::{closure#0}')
-    okf = False
-    if fb is not None:
-        res.touch(fb)
-        fs = Sym(fb)
-        fs.run()
-        cps = fs.complete_paths()
-        r = cps[0].ret if len(cps) == 1 else ('x',)
-        inner = None
-        if r[0] == 'un' and r[1] == 'Not':
-            inner = r[2]
-        elif r[0] == 'call' and r[1].endswith('Not>::not') and len(r[2]) == 1:
-            inner = r[2][0]
-        okf = inner is not None and field_chain(strip_transparent(inner))[-1:] == ['2']
-    res.check(okf, 'TABLE', START_ENDGAME + ' filter', 'the end-game filter keeps exactly the candidates not yet queried (flag false)')
+    # exactly the entries whose flag is false are queried: on every path that sends, the element's flag is known to be
+    # false - through a `.filter(|e| !e.2)` on the iterator or through a test of the element inside the loop - and
+    # nothing else about the element decides whether it is queried
+    okf = True
+    nsend = 0
+    whyf = ''
+    for p in s.paths:
+        sends = [e for e in p.effects if e[0] == 'call' and e[1] == 'socket::Socket::send']
+        if not sends:
+            continue
+        nsend += 1
+        dest = strip_transparent(sends[0][2][2])
+        nx = find_calls(dest, '::next')
+        if not nx:
+            okf = False
+            whyf = 'the query is not sent to the loop element'
+            continue
+        elem_next = nx[0]
+        evidence = False
+        # (a) filter adaptor on the iterator
+        it = strip_transparent(elem_next[2][0])
+        while isinstance(it, tuple) and it and it[0] == 'call' and it[1].split('::')[-1] in ('into_iter',):
+            it = strip_transparent(it[2][0])
+        t = it
+        while isinstance(t, tuple) and t and t[0] == 'call':
+            nm = t[1].split('::')[-1]
+            if nm == 'filter':
+                cl = t[2][1]
+                if isinstance(cl, tuple) and cl[0] == 'closure' and ctx.f.body(cl[1]) is not None:
+                    fb = ctx.f.body(cl[1])
+                    res.touch(fb)
+                    fs = Sym(fb)
+                    fs.run()
+                    cps = fs.complete_paths()
+                    r = cps[0].ret if len(cps) == 1 and not cps[0].conds else ('x',)
+                    inner = None
+                    if r[0] == 'un' and r[1] == 'Not':
+                        inner = r[2]
+                    elif r[0] == 'call' and r[1].endswith('Not>::not') and len(r[2]) == 1:
+                        inner = r[2][0]
+                    if inner is not None and field_chain(strip_transparent(inner))[-1:] == ['2'] and is_param(root_of(strip_transparent(inner))) and root_of(strip_transparent(inner))[1] == 2:
+                        evidence = True
+                    else:
+                        okf = False
+                        whyf = 'the iterator filter is not `!flag`'
+                t = strip_transparent(t[2][0])
+            elif nm in ('iter_mut', 'iter', 'deref_mut', 'deref', 'into_iter'):
+                t = strip_transparent(t[2][0])
+            else:
+                okf = False
+                whyf = 'unexpected adaptor %s on the end-game iterator' % nm
+                break
+        # (b) / other conditions on the element
+        first = p.effects.index(sends[0])
+        for c in p.conds:
+            rel, a, b2, truth = literal(c)
+            if rel == 'variant' and a == elem_next:
+                continue
+            if not find_calls(a, '::next') or elem_next not in find_calls(a, '::next'):
+                continue
+            if c[2] is not None and c[2] >= 0 and c[2] > sends[0][3] and False:
+                continue
+            if rel == 'bool' and field_chain(strip_transparent(a))[-1:] == ['2'] and truth is False:
+                evidence = True
+                continue
+            # conditions evaluated after the send (send result, table update) do not decide whether it is sent
+            if find_calls(a, 'Socket::send') or find_calls(a, 'find_node_mut'):
+                continue
+            okf = False
+            whyf = 'whether an element is queried also depends on %s' % fmt(a)[:80]
+        if not evidence:
+            okf = False
+            whyf = whyf or 'a candidate is queried without its flag having been tested'
+    res.check(okf and nsend >= 1, 'TABLE', START_ENDGAME + ' filter', 'the end-game filter keeps exactly the candidates not yet queried (flag false)', detail=whyf)
     # flag set after a successful send, on the same element
     okw = False
     for p in s.paths:
@@ -588,7 +722,8 @@ def rule_endgame_armed(ctx, res):
 
 def rule_not_early(ctx, res):
     # Completed is constructed at one site with the table Completed <=> !in_endgame && outstanding.is_empty()
-    aggs = [x for x in ctx.aggregates(adt='action::ActionStatus', variant='Completed') if not ctx.is_derived(x[0].path)]
+    # (a `status == ActionStatus::Completed` test builds a value only to compare with it: not a producer)
+    aggs = [x for x in ctx.aggregates(adt='action::ActionStatus', variant='Completed') if not ctx.is_derived(x[0].path) and not ctx.only_compared(x[0], x[2])]
     res.check(len(aggs) == 1 and aggs[0][0].path == STATUS, 'WHO', 'action::ActionStatus::Completed', 'Completed is constructed at exactly one site', detail='%s' % [(x[0].path) for x in aggs])
     b = ctx.body(STATUS)
     res.touch(b)
@@ -663,6 +798,13 @@ def rule_completion_handled(ctx, res):
                 rel, a, b2, truth = literal(c)
                 if rel == 'variant' and a[0] == 'await' and find_calls(a, callee_fn.split('::')[-1]):
                     status = 'Completed' if (b2 == st_vals['Completed'] or (isinstance(b2, tuple) and b2[0] == 'not' and st_vals['Ongoing'] in b2[1])) else 'Ongoing'
+                if rel == 'eq' and truth is not None:
+                    # `status == ActionStatus::Completed` (derived PartialEq) instead of a match
+                    for x, y in ((a, b2), (b2, a)):
+                        if isinstance(x, tuple) and x and x[0] == 'await' and find_calls(x, callee_fn.split('::')[-1]) and agg_variant(y) in st_vals:
+                            hit = agg_variant(y)
+                            other = [k for k in st_vals if k != hit]
+                            status = hit if truth else (other[0] if len(other) == 1 else None)
             done = bool(find_calls_in_effects(p, 'handler::DhtHandler::handle_lookup_completed'))
             if status is None or (status == 'Completed') != done:
                 ok = False
